@@ -477,6 +477,82 @@ func c19Scenario(spec *c19Spec) *Scenario {
 	}
 }
 
+// c19HandshakeScenario: the connecting endpoint against a peer that goes silent at a chosen
+// point of the handshake.  The handshake packet in question is sent 1+maxInitRetrans times with
+// the back-off law between the copies, and the connect call fails right after the last period.
+//   silent          nothing is ever answered
+//   initack-nocookie the INIT is answered once, by an INIT-ACK without a State Cookie
+//   initack-then-silent a proper INIT-ACK, the COOKIE-ECHO is never answered
+func c19HandshakeScenario(kind string, rtoMax float64, il bool) *Scenario {
+	return &Scenario{
+		Name:    "hs-timers",
+		Horizon: 2000 * time.Second,
+		Setup:   func(m *Sim) { m.W.delay = [2]time.Duration{time.Millisecond, time.Millisecond} },
+		Body: func(m *Sim) {
+			cfg := epCfg{NoInterleave: !il, MTU: 228, RTOMax: rtoMax, InitTSN: 0xFFFFFFFD}
+			p := newScripted(m, cfg, il, false)
+			p.dialT = m.Go("dial", func() { m.Dial(0, cfg) })
+			p.settle(0)
+			switch kind {
+			case "initack-nocookie":
+				p.inject(p.pkt(chunkBytes(wINITACK, 0, wInitVal(p.tag, p.arwnd, 65535, 65535, p.tsn0, p.initParams()...))))
+			case "initack-then-silent":
+				cookie := []byte("cookie-cookie-cookie-cookie-1234")
+				p.inject(p.pkt(chunkBytes(wINITACK, 0, wInitVal(p.tag, p.arwnd, 65535, 65535, p.tsn0, append([][]byte{wTLVBytes(7, cookie, true)}, p.initParams()...)...))))
+			}
+			rm := rtoMax
+			if rm == 0 {
+				rm = defaultRTOMax
+			}
+			bound := time.Duration(float64(maxInitRetrans+1)*rm) * time.Millisecond
+			ok := m.WaitUntil("dial-failed", bound+5*time.Second, func() bool { return p.dialT.Done })
+			if !ok {
+				m.Failf("handshake.hang", "%s: the connect call has not returned %v after it began", kind, bound+5*time.Second)
+			} else if m.Err[0] == nil {
+				m.Failf("handshake.hang", "%s: the connect call succeeded against a peer that never completed the handshake", kind)
+			}
+			c03Teardown(m, p)
+		},
+		Final: func(m *Sim, x *Exec) {
+			generalVerdicts(m, x, true)
+			typ := uint8(wINIT)
+			if kind == "initack-then-silent" {
+				typ = wCOOKIEECHO
+			}
+			var times []time.Duration
+			for _, ev := range x.Events {
+				if ev.Kind == "send" && ev.From == 0 && ev.Pkt.dec != nil && len(ev.Pkt.dec.Chunks) > 0 && ev.Pkt.dec.Chunks[0].Typ == typ {
+					times = append(times, ev.At)
+				}
+			}
+			if len(times) != 1+int(maxInitRetrans) {
+				m.Failf("handshake.retries", "%s: %d transmissions of %s, want %d (times %v)", kind, len(times), wTypeName(typ), 1+maxInitRetrans, times)
+				return
+			}
+			rm := rtoMax
+			if rm == 0 {
+				rm = defaultRTOMax
+			}
+			for i := 1; i < len(times); i++ {
+				gap := times[i] - times[i-1]
+				want := time.Duration(calcBackoff(1000, uint(i-1), rm)) * time.Millisecond
+				if gap != want {
+					m.Failf("backoff.interval", "%s: %s copy %d came %v after the previous one, want %v (times %v)", kind, wTypeName(typ), i, gap, want, times)
+					return
+				}
+			}
+			for _, h := range x.Hist {
+				if h.Call == "dial0" {
+					want := times[len(times)-1] + time.Duration(calcBackoff(1000, uint(len(times)-1), rm))*time.Millisecond
+					if h.At != want {
+						m.Failf("handshake.giveup", "%s: the connect call returned at %v, the last retransmission period ended at %v", kind, h.At, want)
+					}
+				}
+			}
+		},
+	}
+}
+
 // t3Law (RFC 4960 6.3.2 R1-R3), evaluated at quiescent points: while an endpoint that can still
 // send has unacknowledged, non-abandoned DATA outstanding, its T3-rtx timer is running.
 func t3Law(m *Sim) {
@@ -771,6 +847,17 @@ func c19EndToEnd(j *Job) {
 					continue
 				}
 				j.Explore(fmt.Sprintf("E/%s/delay%v/il%v", kind, dl, il), c19Scenario(&c19Spec{kind: kind, rtoMax: 4000, il: il, delay: dl}), Budget{K: 1}, nil)
+			}
+		}
+	}
+	// handshake timers against a peer that goes silent
+	for _, il := range []bool{false, true} {
+		for _, rm := range []float64{4000, 0} {
+			for _, kind := range []string{"silent", "initack-nocookie", "initack-then-silent"} {
+				if !j.Thorough() && il && rm == 0 {
+					continue
+				}
+				j.Explore(fmt.Sprintf("HS/%s/rtomax%v/il%v", kind, rm, il), c19HandshakeScenario(kind, rm, il), Budget{}, nil)
 			}
 		}
 	}
